@@ -230,69 +230,23 @@ theorem atx_typed {c : CmdInfo} {lines : List ALine} {cls : Nat} {o : Outcome}
   · simp at h
   · rename_i v _
     cases hc : c.resp with
-    | none => simp only [hc] at h; cases v <;> simp at h
+    | none => simp [hc] at h
     | some k => simp only [hc, mkResp] at h; cases v <;> simp at h <;> simp [h.1]
 
-theorem atx_none_imp {c : CmdInfo} {lines : List ALine} {a : Answer}
-    (h : atxAnswer c lines = .ok a) (ha : a = .none) : c.resp = none := by
-  subst ha
+theorem atx_none_iff {c : CmdInfo} {lines : List ALine} {a : Answer}
+    (h : atxAnswer c lines = .ok a) : a = .none ↔ c.resp = none := by
   unfold atxAnswer at h
   split at h
   · simp at h
   · rename_i v _
     cases hc : c.resp with
-    | none => rfl
-    | some k => simp only [hc, mkResp] at h; cases v <;> simp at h
+    | none => simp [hc] at h; simp [h]
+    | some k => simp only [hc, mkResp] at h; cases v <;> simp at h <;> simp [← h]
 
-/-- a line that is neither `J…` nor `X…` -/
-def Plain : ALine → Prop
-  | .j _ _ => False
-  | .x => False
-  | _ => True
-
-theorem atxLoop_plain (twice : Bool) (fuel : Nat) (last : Option ALine) (ls : List ALine)
-    (hl : ∀ p, last = some p → Plain p) (hp : ∀ l ∈ ls, Plain l) {v : AVal}
-    (h : atxLoop twice fuel last ls = .ok v) : v = .none := by
-  induction fuel generalizing last ls with
-  | zero => simp [atxLoop] at h; exact h.symm
-  | succ fuel ih =>
-    unfold atxLoop at h
-    cases ls with
-    | nil => simp only at h; exact ih last [] hl (by simp) h
-    | cons l rest =>
-      have hl1 : Plain l := hp l (by simp)
-      have hrest : ∀ l ∈ rest, Plain l := fun y hy => hp y (by simp [hy])
-      cases l with
-      | empty => exact ih last rest hl hrest h
-      | other => exact ih last rest hl hrest h
-      | x => exact absurd hl1 (by simp [Plain])
-      | z => simp at h
-      | j i v => exact absurd hl1 (by simp [Plain])
-      | n i =>
-        simp only at h
-        cases twice with
-        | false => simp [atxExtract, AVal.ofExtract] at h; exact h.symm
-        | true =>
-          simp only [if_true] at h
-          cases last with
-          | none => exact ih (some (.n i)) rest (by intro p hp; cases hp; simp [Plain]) hrest h
-          | some p =>
-            simp only at h
-            split at h
-            · simp [atxExtract, AVal.ofExtract] at h; exact h.symm
-            · simp at h
-
-theorem atx_nonquery_plain {c : CmdInfo} {lines : List ALine} {a : Answer}
-    (h : atxAnswer c lines = .ok a) (hc : c.resp = none) (hp : ∀ l ∈ lines, Plain l) :
-    a = .none := by
-  unfold atxAnswer at h
-  split at h
-  · simp at h
-  · rename_i v hv
-    have := atxLoop_plain c.twice 5 none lines (by simp) hp hv
-    subst this
-    simp [hc] at h
-    exact h.symm
+/-- a non-query gets `None` from every line list on which the loop does not raise -/
+theorem atx_nonquery {c : CmdInfo} {lines : List ALine} {a : Answer}
+    (h : atxAnswer c lines = .ok a) (hc : c.resp = none) : a = .none :=
+  (atx_none_iff h).mpr hc
 
 /-! ## the status tables -/
 
@@ -356,20 +310,16 @@ theorem sci_table (c : CmdInfo) (bus : Bus) (hb : ∀ b, bus = .value b → b < 
     cases resp <;> simp [sciAnswer, lubaAnswer, serialWait, conforms, mkResp, hb', reportsGarbled]
   | _ => cases resp <;> simp [sciAnswer, lubaAnswer, serialWait, conforms, mkResp, reportsGarbled]
 
-theorem atx_table (c : CmdInfo) (bus : Bus) (hb : ∀ b, bus = .value b → b < 256)
-    (hq : c.resp = none → ∀ b, bus ≠ .value b) :
+theorem atx_table (c : CmdInfo) (bus : Bus) (hb : ∀ b, bus = .value b → b < 256) :
     ∃ a, atxAnswer c (atxLines c.twice bus) = .ok a ∧ conforms .atx c bus a = true := by
   obtain ⟨resp, twice⟩ := c
   cases bus with
   | value b =>
     have hb' := hb b rfl
-    cases resp with
-    | none => exact absurd rfl (hq rfl b)
-    | some cls =>
-      cases twice <;>
-      simp [atxAnswer, atxLines, atxLoop, atxExtract, AVal.ofExtract, conforms, mkResp, hb', reportsGarbled]
+    cases resp <;> cases twice <;>
+      simp [atxAnswer, atxLines, atxLoop, atxExtract, AVal.ofExtract, conforms, mkResp, hb',
+        reportsGarbled]
   | _ => cases resp <;> cases twice <;>
       simp [atxAnswer, atxLines, atxLoop, atxExtract, AVal.ofExtract, conforms, mkResp, reportsGarbled]
-
 
 end DaliVerif.Proofs.AnswerTable
